@@ -194,4 +194,18 @@ theorem handles_are_revalidated_after_locking_by_number :
 
 example : GoNfsd.Model.Skeleton.relockCheck ("nfs.lookupOrdered", 1, 0) = false := by decide
 
+/-- … and so over every HISTORY: the generation stored for an inode number never decreases, whatever happens to the number —
+    any sequence of operations, restarts included.  A handle (number, generation) that was handed out once can therefore be
+    matched again only by the object it was handed out for: a later owner of the number has a larger generation
+    (`gen_strictly_increases` at every free and every allocation).  (Seeded change C08q zeroes the slot of a freed inode,
+    generation included: after a restart the number starts again at generation 1.) -/
+theorem generations_never_decrease (s : FS) (ops : List (Op × Choice)) (i : Nat) :
+    (s.get i).gen ≤ ((run s ops).1.get i).gen := by
+  induction ops generalizing s with
+  | nil => exact Nat.le_refl _
+  | cons x rest ih =>
+    obtain ⟨op, c⟩ := x
+    simp only [run]
+    exact Nat.le_trans (gen_monotone s op c i) (ih _)
+
 end GoNfsd.Props.C08
